@@ -150,3 +150,31 @@ func recvObject(f *Func) types.Object {
 }
 
 var _ = strings.Contains
+
+func init() {
+	propChecks["C07"] = checkC07
+	propChecks["C14"] = checkC14
+}
+
+var pubsubOwners = map[string]bool{"pubsub.Queue": true, "pubsub.Deque": true}
+
+func checkC07(c *Ctx) {
+	c.R.Clauses = append(c.R.Clauses,
+		"W1/W2/W2b: every wait is a predicate loop that re-checks closed and ctx before parking and has a context watcher on the same cond",
+		"W3/W6: every write of state that a wait predicate reads is followed, on every path, by a Broadcast of every cond whose waiters read it (Deque.Close, push, pop; Queue add, remove, close)",
+		"W4: every notification holds the cond's locker",
+		"W7: no blocking operation parks unconditionally (WaitFront on a non-empty deque)",
+		"L1/L2 for Queue and Deque (the predicate and the park happen in one critical section)")
+	c.R.NotCov = append(c.R.NotCov, "the value of transition guards (== 1)", "fairness", "'promptly' as a time bound")
+	lockRules(c, pubsubOwners, map[string]int{"L1": 20, "L2": 8, "L3": 2})
+	condRules(c, pubsubOwners, map[string]int{"W1": 5, "W2": 5, "W2b": 5, "W3": 20, "W4": 20, "W6": 20, "W7": 2})
+}
+
+func checkC14(c *Ctx) {
+	c.R.Clauses = append(c.R.Clauses,
+		"L1: counter and cond are only touched under mu", "W1/W2/W2b/W3/W4 for the WaitGroup cond: Add broadcasts when the counter reaches zero (the waiter's own wake condition), the watcher broadcasts on cancel under the lock")
+	c.R.NotCov = append(c.R.NotCov, "the counter as an arithmetic sum of completed calls")
+	owners := map[string]bool{"fun.WaitGroup": true}
+	lockRules(c, owners, map[string]int{"L1": 4, "L2": 1})
+	condRules(c, owners, map[string]int{"W1": 1, "W2": 1, "W2b": 1, "W3": 1, "W4": 2, "W6": 1})
+}
